@@ -6,13 +6,14 @@ package main
 
 import (
 	"bytes"
+	"crypto/aes"
 	"encoding/binary"
 	"fmt"
 	"time"
 
+	"github.com/dchest/cmac"
 	"github.com/gopacket/gopacket"
 
-	"github.com/scionproto/scion/pkg/scrypto"
 	"github.com/scionproto/scion/pkg/slayers"
 	"github.com/scionproto/scion/pkg/slayers/path"
 	"github.com/scionproto/scion/pkg/slayers/path/scion"
@@ -36,7 +37,7 @@ func (in *input) replay(a answer) map[string]any {
 		ifs = append(ifs, fmt.Sprintf("if %d scope=%s type=%d up=%v link=%d", i.id, scopeName[i.scope], i.lt, i.up, i.link))
 	}
 	return map[string]any{
-		"local_ia": fmt.Sprintf("%#x", in.cfg.ia), "key": vlib.Hex(in.cfg.key), "interfaces": ifs,
+		"local_ia": fmt.Sprintf("%#x", in.cfg.ia), "key": vlib.Hex(in.cfg.key), "interfaces": ifs, "svcs": in.cfg.svcs,
 		"ingress_link": in.link.Name, "ingress_ifid": in.link.ID, "ingress_scope": int(in.link.Kind),
 		"scenario": in.kind, "mutator": in.mut, "now_unix_ns": in.t0.UnixNano(),
 		"packet": vlib.Hex(in.raw), "router_answer": clip(a.text),
@@ -122,14 +123,31 @@ func (d *decoded) segmentChange() bool {
 	return g+1 < d.numHops() && d.segOf(g+1) != d.segOf(g) && !d.peeringHop()
 }
 
+// macValid recomputes the hop-field MAC from the SCION header specification (doc/protocols/
+// scion-header.rst, "Hop Field MAC computation"), independently of pkg/slayers/path:
+// AES-CMAC under the AS key over the 16-byte block
+//
+//	0(2) SegID(2) Timestamp(4) 0(1) ExpTime(1) ConsIngress(2) ConsEgress(2) 0(2),
+//
+// truncated to 6 bytes.
 func macValid(key []byte, inf path.InfoField, hf path.HopField, segID uint16) bool {
-	m, err := scrypto.InitMac(key)
+	block, err := aes.NewCipher(key)
 	if err != nil {
 		return false
 	}
-	inf.SegID = segID
-	want := path.MAC(m, inf, hf, nil)
-	return bytes.Equal(want[:], hf.Mac[:])
+	m, err := cmac.New(block)
+	if err != nil {
+		return false
+	}
+	var in [16]byte
+	binary.BigEndian.PutUint16(in[2:4], segID)
+	binary.BigEndian.PutUint32(in[4:8], inf.Timestamp)
+	in[9] = hf.ExpTime
+	binary.BigEndian.PutUint16(in[10:12], hf.ConsIngress)
+	binary.BigEndian.PutUint16(in[12:14], hf.ConsEgress)
+	m.Write(in[:])
+	want := m.Sum(nil)
+	return bytes.Equal(want[:6], hf.Mac[:])
 }
 
 // expiry instant of a hop field: Timestamp + (1 + ExpTime) * (24h / 256)
